@@ -468,12 +468,18 @@ impl RdfStore {
                     results.retain(|t| !pending_deletes.contains(t.as_ref()));
                 }
 
-                // Include pending inserts
+                // Include pending inserts, each triple once: a pending insert of a
+                // triple that is already in the results (committed, or inserted
+                // twice in this transaction) must not produce a second copy
+                let mut present: FxHashSet<Arc<Triple>> = results.iter().cloned().collect();
                 for op in ops {
                     if let PendingOp::Insert(triple) = op
                         && pattern.matches(triple)
                     {
-                        results.push(Arc::new(triple.clone()));
+                        let triple = Arc::new(triple.clone());
+                        if present.insert(Arc::clone(&triple)) {
+                            results.push(triple);
+                        }
                     }
                 }
             }
